@@ -491,3 +491,4 @@ fn c05_cm2_recall_known_form() {
     assert!(feq(cm.recall(), tp / (tp + fp)));              // the value of the known finding: TP/(TP+FP)
     kani::cover!(c[0][1] != c[1][0] && c[0][0] > 0);
 }
+
